@@ -160,7 +160,7 @@ def gen_cases(ctx, tag, nfam, nhist, with_ads=True, ads_perms=True):
     # permutation families
     for i in range(nfam):
         k = 1 + i % 4
-        fam = L.gen_family(rng, k) if i % 3 else [L.gen_raw(rng, "r%d" % j, ["n1", "n2", "n3", "n4", "n5"]) for j in range(k)]
+        fam = L.gen_family(rng, k) if i % 3 else L.gen_raw_family(rng, k)
         for perm in itertools.permutations(range(k)):
             cases.append((fam, [("merge", j) for j in perm]))
     # histories
@@ -170,7 +170,7 @@ def gen_cases(ctx, tag, nfam, nhist, with_ads=True, ads_perms=True):
         if r < 0.5:
             fam = L.gen_family(rng, k)
         elif r < 0.9:
-            fam = [L.gen_raw(rng, "r%d" % j, ["n1", "n2", "n3", "n4", "n5"]) for j in range(k)]
+            fam = L.gen_raw_family(rng, k)
         else:
             fam = malformed_family(rng)
             k = len(fam)
@@ -577,9 +577,10 @@ def oracle(ctx, res, nfam=None, nhist=None):
             res.nontrivial.add(canon([family, ops]))
     # 2. permutations + inverse on generated families
     fams = [deterministic_family_first_wins(), deterministic_family_shared_edge()]
+    fams += [c["family"] for c in corpus_cases() if "substring" in c["name"]]
     for i in range(nfam):
         k = 1 + i % 4
-        fams.append(L.gen_family(rng, k) if i % 3 else [L.gen_raw(rng, "r%d" % j, ["n1", "n2", "n3", "n4", "n5"]) for j in range(k)])
+        fams.append(L.gen_family(rng, k) if i % 3 else L.gen_raw_family(rng, k))
     ads = L.repo_ad_specs(hist=res.count)
     fams.append([ads[n] for n in L.ADS] if ctx.thorough else [ads["RENCI"], ads["Network"]])
     for fam in fams:
@@ -616,7 +617,36 @@ def deterministic_family_shared_edge():
     return [a, b, c]
 
 
+def check_everything(res, family, ops):
+    """Every oracle clause that can be evaluated on one history and on what can be derived from it: the history itself,
+    every prefix ending in a merge followed by the unmerge of that model, all merge orders of the family."""
+    ops = [tuple(o) for o in ops]
+    run_history(res, family, ops)
+    merges = [o[1] for o in ops if o[0] == "merge"]
+    if len(family) <= 4:
+        check_permutations(res, family)
+    for i in sorted(set(merges)):
+        others = [j for j in range(len(family)) if j != i]
+        for m in range(len(others) + 1):
+            check_inverse(res, family, others[:m], i)
+            # merge everything, unmerge i: elements only i contributed go, the others' stay (provenance bookkeeping)
+        run_history(res, family, [("merge", j) for j in others] + [("merge", i), ("unmerge", i)] + [("unmerge", j) for j in others])
+        run_history(res, family, [("merge", i)] + [("merge", j) for j in others] + [("unmerge", i)])
+
+
 def search(ctx, res, broken):
+    # 1. the histories on which implementation and model differ, through the property oracle
+    for link, detail in broken:
+        if link == "correspondence" and isinstance(detail, list):
+            for d in detail:
+                c = d.get("case") or {}
+                if c.get("family") and c.get("ops") is not None:
+                    check_everything(res, c["family"], c["ops"])
+                    res.count("search:correspondence-history")
+    L.fresh_store()
+    if res.violations:
+        return
+    # 2. the generators with a larger budget
     oracle(ctx, res, nfam=ctx.scale(200, 1200), nhist=ctx.scale(600, 4000))
 
 
